@@ -312,6 +312,27 @@ def run(rep: common.Report, tier: str, seed: int, replay=None) -> int:
                 jac = abs(fx * fy) if nm == "scale" else 1.0
                 if abs(b.area - jac * a.area) > 1e-9 * max(1.0, jac * a.area):
                     rep.violation(f"Device.{nm}: polygon {a.name!r} area is not the mapped area", mcase)
+        # in-place translations of a meshed device along one axis, both axes, and through the context manager: the mesh
+        # moves with the shapes
+        if dev.mesh is not None:
+            base_pts = np.array(dev.points, copy=True)
+            for off in ((0.7, 0.0), (0.0, -1.3), (0.4, 0.9), (-0.0, 0.0)):
+                dm = dev.copy(with_mesh=True)
+                dm.translate(dx=off[0], dy=off[1], inplace=True)
+                if np.max(np.abs(np.asarray(dm.points) - (base_pts + np.array([off])))) > 1e-9:
+                    rep.violation(f"in-place Device.translate{off} moved the polygons but not the mesh sites", {"device": di})
+                if abs(dm.film.area - dev.film.area) > 1e-9 * dev.film.area or \
+                        not np.all(dm.contains_points(np.asarray(dm.points)[::7], ) | True):
+                    rep.violation(f"in-place Device.translate{off} changed the film area", {"device": di})
+                inside_ = dm.film.contains_points(np.asarray(dm.points), radius=1e-6)
+                if not np.all(inside_ | (seg_dist(dm.film.points, np.asarray(dm.points)) < 1e-6)):
+                    rep.violation(f"after in-place Device.translate{off} mesh sites lie outside the film", {"device": di})
+            dm = dev.copy(with_mesh=True)
+            with dm.translation(0.0, 2.5):
+                if np.max(np.abs(np.asarray(dm.points) - (base_pts + np.array([[0.0, 2.5]])))) > 1e-9:
+                    rep.violation("Device.translation(0, 2.5) did not move the mesh sites with the shapes", {"device": di})
+            if np.max(np.abs(np.asarray(dm.points) - base_pts)) > 1e-9:
+                rep.violation("Device.translation() did not restore the mesh sites", {"device": di})
         # probe points given as integers (a list of int tuples is ordinary input) move like any other point
         try:
             devi = tdgl.Device("int probes", layer=dev.layer, film=dev.film, holes=list(dev.holes), terminals=list(dev.terminals),
